@@ -110,3 +110,10 @@ package v1alpha1
 //@   requires c != nil
 //@   ensures [C18] (result1 == nil) == boolStrOK(c)
 //@   ensures [C18] result1 == nil ==> result0 == boolStr(c, value)
+
+// a concurrency policy is valid iff it is one of the listed policies (the package-level list ConcurrencyPoliciesAll)
+//@ pure ConcurrencyPolicy.IsValid(p ConcurrencyPolicy) bool = exists k int :: 0 <= k && k < len(ConcurrencyPoliciesAll) && ConcurrencyPoliciesAll[k] == p
+//@ func ConcurrencyPolicy.IsValid
+//@   loop 1 invariant -1 <= rangeindex && rangeindex < len(ConcurrencyPoliciesAll)
+//@   loop 1 invariant forall k int :: 0 <= k && k <= rangeindex ==> ConcurrencyPoliciesAll[k] != p
+//@   ensures [C17] result == p.IsValid()
